@@ -142,7 +142,7 @@ KN = ('MVoro.Proofs.Aux20', 'MVoro.KnnProofs')
 def kn(name, orig, doc): return (name, KN[0], KN[1], orig, doc)
 SP = ('MVoro.Proofs.Aux20', 'MVoro.SphereProofs')
 def sp(name, orig, doc): return (name, SP[0], SP[1], orig, doc)
-prop('C20', 'auxiliary structures return exact nearest neighbours and enclosing spheres', ['MVoro.Proofs.Aux20', 'MVoro.Proofs.MEBProofs', 'MVoro.Proofs.KnnCorrect'], [
+prop('C20', 'auxiliary structures return exact nearest neighbours and enclosing spheres', ['MVoro.Proofs.Aux20', 'MVoro.Proofs.MEBProofs', 'MVoro.Proofs.KnnCorrect', 'MVoro.Proofs.GridWF'], [
   kn('cell_lower_bound', 'minDist2_lower_bound', 'T20.1 `min_distance_squared` of a grid cell is a lower bound of the squared distance to every point inside the cell (needs the cell extent loc .. loc+width componentwise)'),
   kn('closest_loc_in_cell', 'closestLoc_inBox', 'T20.1 `closest_loc` lies in the cell'),
   kn('bounded_heap_insert', 'insertK_spec', 'T20.1 one insertion into the bounded heap keeps "the k smallest distances seen so far, ascending"'),
@@ -153,6 +153,8 @@ prop('C20', 'auxiliary structures return exact nearest neighbours and enclosing 
   ('ring_loop_returns_fold_over_all_rings', 'MVoro.Proofs.KnnCorrect', 'MVoro.KnnCorrect', 'knnLoop_eq_fold', 'T20.1 whatever the early exits do (skipped cells, termination test), the ring loop returns the plain fold of the bounded heap over ALL particles of ALL rings — for every grid whose cells contain their particles (hbox), whose rings end (hend) and whose rings are at least `dist_to_face + r * min width` away (hfar)'),
   ('ring_loop_correct', 'MVoro.Proofs.KnnCorrect', 'MVoro.KnnCorrect', 'knnLoop_correct', 'T20.1 hence the result is sorted by distance, has min(k, number of candidates) entries, its distances are the k smallest, and every entry is a real candidate'),
   ('ring_loop_eq_brute_force', 'MVoro.Proofs.KnnCorrect', 'MVoro.KnnCorrect', 'knnLoop_eq_spec', 'T20.1 if moreover the cells of the rings hold every particle exactly once, the distances returned are those of the brute-force specification `knnSpec` (k nearest OTHER particles, increasing)'),
+  ('space_new_builds_a_wellformed_grid', 'MVoro.Proofs.GridWF', 'MVoro.GridWF', 'mkSpace_gridOK', 'T20.1 Space::new (componentwise placement): for a box of positive extents, a positive maximal cell width and particles inside the half-open box the grid certificate holds: non-negative cell widths, every particle registered in a cell lies in the box of that cell (binning by floor brackets the coordinate), the cells hold every particle exactly once (row-major index arithmetic)'),
+  ('space_new_meets_the_hypotheses_of_the_ring_loop', 'MVoro.Proofs.GridWF', 'MVoro.GridWF', 'mkSpace_wellformed', 'T20.1 hence hbox and the partition property assumed by knnLoop_eq_spec hold for the grid of Space::new; the ring hypotheses hend / hfar (index arithmetic of get_r_ring) remain assumptions'),
   kn('pinned_placement_breaks_lower_bound', 'pinned_lower_bound_fails', 'T20.1 (negative) with `c_width.x` on all axes (the pinned tree) a particle lies outside the extent of its cell and the lower bound fails'),
   kn('pinned_placement_wrong_answer', 'pinned_knn_ne_spec', 'T20.1 (negative) concrete non-cubic box on which the pinned placement returns a wrong nearest neighbour; the componentwise placement returns the right one'),
   sp('certificate_implies_minimal', 'minimal_of_certificate_V3', 'T20.3 a ball containing all points whose centre is a convex combination of points on its boundary is the minimal enclosing ball'),
@@ -193,7 +195,7 @@ FP = ('MVoro.Proofs.FacesProofs', 'MVoro.FacesProofs')
 def fp(name, orig, doc): return (name, FP[0], FP[1], orig, doc)
 TS = ('MVoro.Proofs.Misc', 'MVoro.TypeStateProofs')
 def ts(name, orig, doc): return (name, TS[0], TS[1], orig, doc)
-prop('C15', 'extracted vertices and face polygons form a valid convex polytope', ['MVoro.Proofs.FacesProofs', 'MVoro.Proofs.Misc', 'MVoro.Proofs.GeomHelpers', 'MVoro.Proofs.Euler', 'MVoro.Proofs.EulerClip', 'MVoro.Proofs.LinkClip', 'MVoro.Proofs.EulerReach', 'MVoro.Proofs.ReachAll', 'MVoro.Proofs.FaceCycle', 'MVoro.Proofs.SortCycle'], [
+prop('C15', 'extracted vertices and face polygons form a valid convex polytope', ['MVoro.Proofs.FacesProofs', 'MVoro.Proofs.Misc', 'MVoro.Proofs.GeomHelpers', 'MVoro.Proofs.Euler', 'MVoro.Proofs.EulerClip', 'MVoro.Proofs.LinkClip', 'MVoro.Proofs.EulerReach', 'MVoro.Proofs.ReachAll', 'MVoro.Proofs.FaceCycle', 'MVoro.Proofs.SortCycle', 'MVoro.Proofs.EulerLists'], [
   gh('vertex_on_its_three_planes', 'intersectPlanes_on', 'T15.1 `Vertex::from_dual` = intersect_planes of the three listed planes lies on all three (exact arithmetic, det != 0)'),
   fp('ordering_is_a_permutation', 'sortFaceVertices_perm', 'T15.2a whenever `sort_face_vertices` succeeds its result is a permutation of the vertices collected for the plane: no vertex is lost or duplicated by the ordering'),
   fp('vertex_listed_per_occurrence', 'count_collected', 'T15.2b vertex i is collected under plane p exactly as often as p occurs in its dual triple'),
@@ -220,5 +222,7 @@ prop('C15', 'extracted vertices and face polygons form a valid convex polytope',
   ('sort_face_vertices_on_reachable_cells', 'MVoro.Proofs.SortCycle', 'MVoro.SortCycle', 'reachable_sort', 'T15.2 for every surface reachable from the start box by successful clips, every face'),
   ('sorted_face_is_a_closed_walk', 'MVoro.Proofs.SortCycle', 'MVoro.SortCycle', 'sorted_closed_walk', 'T15.2 in the ordered face every vertex is joined to the next and the last to the first by crossing the edge that leaves the face plane'),
   ('with_faces_succeeds_on_reachable_cells', 'MVoro.Proofs.SortCycle', 'MVoro.SortCycle', 'reachable_withFaces', 'T15.2 the whole with_faces model (collection, ordering of every face, removal of empty faces) returns a result, i.e. no expect/assert! of the ordering step fires for any face of a reachable cell'),
+  ('euler_relation_of_the_returned_face_lists', 'MVoro.Proofs.EulerLists', 'MVoro.EulerLists', 'reachable_euler_lists', 'T15.1 for every cell reachable from the start box whose planes are below nplanes, with_faces returns face lists whose Euler characteristic V - E + F (E = half the sum of the list lengths, F = number of non-empty lists: the quantity the check computes from the implementation) is 2'),
+  ('no_face_with_one_vertex', 'MVoro.Proofs.EulerLists', 'MVoro.EulerLists', 'M_ne_one', 'T15.1 no face of a closed surface with connected links has exactly one vertex'),
   ('all_invariants_for_every_reachable_cell', 'MVoro.Proofs.ReachAll', 'MVoro.ReachAll', 'reachable_all', 'T15/T01.4/T10.5 combined: every cell reachable from the start cell by exact clips is geometrically good (vertices on their planes, positively oriented, inside all half spaces, closed surface) and combinatorially good (Euler, no pinched plane)'),
 ])
